@@ -40,7 +40,8 @@ RULE = ("elections with 0..7 projects (costs from tie-rich pools: zeros, equal c
         "repeated ballots, zero and fractional scores), as Profile or MultiProfile; every shipped measure the code accepts for "
         "the ballot type (Effort_Sat on all four types) is "
         "built for every ballot and queried with sat_project for every project and sat for every subset when <=5 "
-        "projects (16 sampled + empty + full above), then again re-ordered / in another container type; "
+        "projects (16 sampled + empty + full above), then again re-ordered and handed over as another container type or as "
+        "a one-shot iterable (generator, iter, map, chain, reversed, dict views); "
         "solver-reaching measures in separate small cases; a HISTORY stream (2 cases in 10): an election is analysed "
         "(optionally after another election with the same project names and budget but other costs and ballots), its "
         "live objects are changed in place (ballot appended/removed, multiplicity changed, copy.copy then extended, "
@@ -84,6 +85,38 @@ PURE = {"approval": [1, 2, 3, 4, 5, 8], "cardinal": [1, 2, 3, 4, 5, 6, 9], "cumu
         "ordinal": [1, 2, 3, 4, 5, 7]}
 SOLV = {"approval": [10], "cardinal": [10, 11], "cumulative": [10, 11], "ordinal": [10]}
 TRANSC = [12, 13, 14, 15]
+# forms in which the re-ordered query collection is handed to sat(): containers and ONE-SHOT iterables
+# (a measure that traverses its argument twice is wrong on the latter)
+FORMS = ["list", "tuple", "set", "frozenset", "generator", "iter", "map", "dict_keys", "dict_values", "chain",
+         "reversed", "generator", "iter", "map"]
+ONE_SHOT = {"generator", "iter", "map", "chain", "reversed"}
+
+
+def _form(ct, items):
+    items = list(items)
+    if ct == "list":
+        return items
+    if ct == "tuple":
+        return tuple(items)
+    if ct == "set":
+        return set(items)
+    if ct == "frozenset":
+        return frozenset(items)
+    if ct == "generator":
+        return (p for p in items)
+    if ct == "iter":
+        return iter(items)
+    if ct == "map":
+        return map(lambda p: p, items)
+    if ct == "dict_keys":
+        return dict.fromkeys(items).keys()
+    if ct == "dict_values":
+        return dict(enumerate(items)).values()
+    if ct == "chain":
+        return itertools.chain(items[:1], items[1:])
+    if ct == "reversed":
+        return reversed(items[::-1])
+    raise ValueError(ct)
 
 
 def budget(tier):
@@ -274,7 +307,7 @@ def gen_history(rng, i, btype):
     for W in case["sets"]:
         W2 = list(W)
         rng.shuffle(W2)
-        case["sets2"].append([W2, rng.choice(["list", "tuple", "set", "frozenset"])])
+        case["sets2"].append([W2, rng.choice(FORMS)])
     case["sets_first"] = bool(rng.randrange(2))
     return case
 
@@ -323,7 +356,7 @@ def gen(rng, i, tier):
     for W in sets:
         W2 = list(W)
         rng.shuffle(W2)
-        sets2.append([W2, rng.choice(["list", "tuple", "set", "frozenset"])])
+        sets2.append([W2, rng.choice(FORMS)])
     return {"kind": kind, "btype": btype, "costs": costs, "budget": pb.qs(b), "order": order,
             "ballots": ballots, "multi": bool(rng.randrange(2)), "sets": sets, "sets2": sets2,
             "sets_first": bool(rng.randrange(2)), "solver": kind == "solver"}
@@ -365,7 +398,6 @@ def _query_all(inst, prof, projs, case, via_satprofile=False):
     """build a fresh measure object for every ballot of the profile and every measure, and query it"""
     import pabutools.election.satisfaction as S
 
-    conts = {"list": list, "tuple": tuple, "set": set, "frozenset": frozenset}
     res = []
     mids = measures_of(case)
     if via_satprofile:
@@ -380,7 +412,7 @@ def _query_all(inst, prof, projs, case, via_satprofile=False):
         pv = [core.qj(s.sat_project(p)) for p in projs]
         if sv is None:
             sv = [core.qj(s.sat([projs[j] for j in W])) for W in case["sets"]]
-        sv2 = [core.qj(s.sat(conts[ct](projs[j] for j in W2))) for W2, ct in case["sets2"]]
+        sv2 = [core.qj(s.sat(_form(ct, (projs[j] for j in W2)))) for W2, ct in case["sets2"]]
         pv2 = [core.qj(s.sat_project(p)) for p in reversed(projs)][::-1]
         res.append({"mid": mid, "ballot": content, "pv": pv, "pv2": pv2, "sv": sv, "sv2": sv2})
     return res
@@ -614,7 +646,7 @@ def stats(cases, obs):
          "has_zero_cost": 0, "equal_costs": 0, "project_dearer_than_budget": 0, "nproj_hist": {},
          "nballots_hist": {}, "with_repeated_ballot": 0, "with_empty_ballot": 0, "with_full_ballot": 0,
          "fractional_scores": 0, "zero_score_in_ballot": 0, "negative_score": 0,
-         "measure_objects": 0, "values_compared": 0, "all_subsets_queried": 0,
+         "measure_objects": 0, "values_compared": 0, "one_shot_iterable_queries": 0, "query_forms": {}, "all_subsets_queried": 0,
          "normaliser_zero_nonempty_ballot": 0, "relative_value_above_one": 0, "measure_objects_by_id": {}}
     for c, o in zip(cases, obs):
         if not isinstance(o, dict) or "obs" not in o or o.get("discard"):
@@ -648,6 +680,9 @@ def stats(cases, obs):
             d["zero_score_in_ballot"] += any(s == 0 for s in sc)
             d["negative_score"] += any(s < 0 for s in sc)
         d["all_subsets_queried"] += len(c["sets"]) == 2 ** n
+        for _, ct in c["sets2"]:
+            d["query_forms"][ct] = d["query_forms"].get(ct, 0) + len(o["obs"])
+            d["one_shot_iterable_queries"] += len(o["obs"]) * (ct in ONE_SHOT)
         for x in o["obs"]:
             d["measure_objects"] += 1
             k = str(x["mid"])
